@@ -125,12 +125,13 @@ func Intersection(input ...*Dimension) []Key {
 	dims := []*sortableDim{}
 
 	for _, v := range input {
-		if len(v.keys) == 0 {
-			return []Key{}
-		}
 		// kinda ugly imo
 		v.m.RLock()
 		defer v.m.RUnlock()
+
+		if len(v.keys) == 0 {
+			return []Key{}
+		}
 
 		dims = append(dims, &sortableDim{
 			keys: v.keys,
@@ -189,7 +190,7 @@ func Union(input ...*Dimension) []Key {
 	isExists := map[string]bool{}
 
 	for _, v := range input {
-		for _, k := range v.keys {
+		for _, k := range v.copyKeys() {
 			if !isExists[string(k)] {
 				result = append(result, k)
 			}
